@@ -211,6 +211,7 @@ func TestVerifC13Load(t *testing.T) {
 	kinds, toggles, defFlat, leafPaths := c13Setup(t, factories)
 	nInvalid := c13InvalidNested(out, factories)
 	nInvalid += c13DefaultsProbe(out, factories, nInvalid)
+	nInvalid += c13ServiceProbe(out, factories, nInvalid)
 	for _, c := range vCases(vN(300)) {
 		if c < nInvalid {
 			continue // case indices 0..nInvalid-1 are the corpus of invalid nested values
@@ -268,6 +269,7 @@ func TestVerifC13Load(t *testing.T) {
 		if ret, rerr := confmap.NewRetrievedFromYAML(js); rerr == nil {
 			parsed, _ = ret.AsConf()
 		}
+		typedefSent := map[string]bool{}
 		for _, in := range insts {
 			id := component.MustNewIDWithName(in.typ, in.name)
 			if in.name == "" {
@@ -284,28 +286,35 @@ func TestVerifC13Load(t *testing.T) {
 					}
 				}
 			}
-			isoEff, e2 := c13EffectiveOf(iso)
+			_, e2 := c13EffectiveOf(iso)
 			if isoErr != nil || e2 != nil {
 				out.Linef("viol sig=C13/load/isolated-load-failed id=%s", in.id())
 				continue
 			}
-			def := map[string]any{}
-			c13Flatten(isoEff, "", def)
-			defS := map[string]string{}
-			for p, v := range def {
-				defS[vHex(p)] = c13Render(v)
-			}
+			// the flat overlay model (Lean `loadAll`): the PRISTINE default of the instance's type overlaid by its own keys,
+			// judged at the written leaves and at every default leaf under an untouched top-level key
+			kindKey := in.section + "/" + in.typ
+			low := func(v any) string { return vHex(strings.ToLower(c13Norm(v))) }
 			wS := map[string]string{}
+			touched := map[string]bool{}
+			queried := map[string]bool{}
 			for _, l := range in.leaves {
+				touched[strings.SplitN(l.path, "::", 2)[0]] = true
+				queried[l.path] = true
 				if l.secret {
 					wS[vHex(l.path)] = "!" + vHex(l.v.(string))
-				} else if l.enum {
-					continue // rendered by the type's MarshalText; taken from the isolated load
 				} else {
-					wS[vHex(l.path)] = c13Render(l.v)
+					wS[vHex(l.path)] = low(l.v)
 				}
 			}
-			out.Linef("op inst id=%s def=%s w=%s", vHex(in.section+"/"+in.id()), c13Pairs(defS), c13Pairs(wS))
+			for p := range defFlat[kindKey] {
+				if kindKey == "receivers/otlp" && strings.HasPrefix(p, "protocols") {
+					continue // otlpreceiver.Config.Unmarshal removes unwritten protocols (modelled in decodeC, not in the flat overlay)
+				}
+				if !touched[strings.SplitN(p, "::", 2)[0]] {
+					queried[p] = true
+				}
+			}
 			var instEff map[string]any
 			if sec, ok := eff[in.section].(map[string]any); ok {
 				instEff, _ = sec[in.id()].(map[string]any)
@@ -314,10 +323,35 @@ func TestVerifC13Load(t *testing.T) {
 			if instEff != nil {
 				c13Flatten(instEff, "", got)
 			}
+			qs := make([]string, 0, len(queried))
 			gotS := map[string]string{}
-			for p, v := range got {
-				gotS[vHex(p)] = c13Render(v)
+			for p := range queried {
+				qs = append(qs, vHex(p))
+				if v, ok := got[p]; ok {
+					if s, isStr := v.(string); isStr && s == "[REDACTED]" {
+						gotS[vHex(p)] = vHex(s)
+					} else {
+						gotS[vHex(p)] = low(v)
+					}
+				} else {
+					gotS[vHex(p)] = "absent"
+				}
 			}
+			sort.Strings(qs)
+			q := "-"
+			if len(qs) > 0 {
+				q = strings.Join(qs, ",")
+			}
+			if !typedefSent[kindKey] {
+				typedefSent[kindKey] = true
+				defS := map[string]string{}
+				for p, v := range defFlat[kindKey] {
+					defS[vHex(p)] = low(v)
+				}
+				out.Linef("op typedef type=%s def=%s", vHex(kindKey), c13Pairs(defS))
+				out.Linef("obs typedef")
+			}
+			out.Linef("op inst id=%s type=%s w=%s q=%s", vHex(in.id()), vHex(kindKey), c13Pairs(wS), q)
 			out.Linef("obs eff %s", c13Pairs(gotS))
 			// the same instance against the Lean decode/encode model on the regenerated schema and default
 			c13Faith(out, in, got, defFlat[in.section+"/"+in.typ], leafPaths[in.section+"/"+in.typ])
@@ -543,10 +577,27 @@ func c13Faith(out *vOut, in *c13Inst, got map[string]any, def map[string]any, le
 	render := func(p string, written bool) string {
 		v, ok := got[p]
 		if !ok {
-			for k := range got {
+			// a map-valued setting: the entries below it. A map of opaque strings is rendered element-wise (written keys,
+			// every value must be the marker): {hexkey=R;…}
+			var items []string
+			allRedacted, any := true, false
+			for k, cv := range got {
 				if strings.HasPrefix(k, p+"::") {
-					return "M"
+					any = true
+					rest := strings.TrimPrefix(k, p+"::")
+					if s, isStr := cv.(string); isStr && s == "[REDACTED]" && !strings.Contains(rest, "::") {
+						items = append(items, vHex(rest)+"=R")
+					} else {
+						allRedacted = false
+					}
 				}
+			}
+			if any && allRedacted {
+				sort.Strings(items)
+				return "{" + strings.Join(items, ";") + "}"
+			}
+			if any {
+				return "M"
 			}
 			return fmt.Sprint(c13AbsentIDLoad)
 		}
@@ -1024,4 +1075,150 @@ func c13DeepRender(v reflect.Value, depth int) string {
 		return fmt.Sprint(v.Float())
 	}
 	return "<" + v.Kind().String() + ">"
+}
+
+// ---- the service section and the collector's top level ---------------------------------------------
+// service::telemetry is decoded by four custom Unmarshal methods (telemetry.Config and the v0.3.0 migration
+// types: decode, on error retry with the v0.2.0 struct, then normalise). Unknown keys at every struct
+// position — including list elements (readers[i], processors[i]) and map values (pipelines::<id>) — and at
+// the collector's top level must be rejected with an error naming the key; written keys must be reflected.
+
+func c13ServiceBase() map[string]any {
+	root := c13ValidBase()
+	root["service"].(map[string]any)["telemetry"] = map[string]any{
+		"logs": map[string]any{"level": "info", "processors": []any{map[string]any{"batch": map[string]any{"exporter": map[string]any{"otlp": map[string]any{
+			"protocol": "http/protobuf", "endpoint": "localhost:4318"}}}}}},
+		"metrics": map[string]any{"level": "normal", "readers": []any{map[string]any{"pull": map[string]any{"exporter": map[string]any{"prometheus": map[string]any{
+			"host": "localhost", "port": 8888}}}}}},
+		"traces": map[string]any{"level": "basic", "processors": []any{map[string]any{"batch": map[string]any{"exporter": map[string]any{"otlp": map[string]any{
+			"protocol": "http/protobuf", "endpoint": "localhost:4318"}}}}}},
+	}
+	return root
+}
+
+// c13At navigates key path segments; a segment "[i]" indexes a list.
+func c13At(v any, path []string) any {
+	for _, seg := range path {
+		if strings.HasPrefix(seg, "[") {
+			var i int
+			fmt.Sscanf(seg, "[%d]", &i)
+			l, _ := v.([]any)
+			if i >= len(l) {
+				return nil
+			}
+			v = l[i]
+		} else {
+			m, _ := v.(map[string]any)
+			v = m[seg]
+		}
+	}
+	return v
+}
+
+func c13ServiceProbe(out *vOut, factories otelcol.Factories, first int) int {
+	n := 0
+	open := func(what string) {
+		out.Linef("case %d service-probe=%s", first+n, what)
+		out.Linef("op inst id=%s def=- w=-", vHex("service-probe/"+what))
+		out.Linef("obs eff -")
+		n++
+	}
+	closeCase := func() {
+		out.Linef("nt")
+		out.Linef("end")
+		out.Flush()
+	}
+	open("base")
+	if cfg, err := c13LoadJSON(factories, c13ServiceBase()); err != nil {
+		out.Linef("viol sig=C13/load/valid-config-rejected where=service-base err=%s", vHex(err.Error()))
+	} else if verr := xconfmap.Validate(cfg); verr != nil {
+		out.Linef("viol sig=C13/load/valid-config-rejected where=service-base-validate err=%s", vHex(verr.Error()))
+	}
+	closeCase()
+	tel := []string{"service", "telemetry"}
+	positions := [][]string{
+		{}, // the collector's top level
+		{"service"}, tel, append(append([]string{}, tel...), "logs"), append(append([]string{}, tel...), "metrics"), append(append([]string{}, tel...), "traces"),
+		{"service", "telemetry", "metrics", "readers", "[0]"}, {"service", "telemetry", "metrics", "readers", "[0]", "pull"},
+		{"service", "telemetry", "metrics", "readers", "[0]", "pull", "exporter"}, {"service", "telemetry", "metrics", "readers", "[0]", "pull", "exporter", "prometheus"},
+		{"service", "telemetry", "traces", "processors", "[0]"}, {"service", "telemetry", "traces", "processors", "[0]", "batch"},
+		{"service", "telemetry", "traces", "processors", "[0]", "batch", "exporter"}, {"service", "telemetry", "traces", "processors", "[0]", "batch", "exporter", "otlp"},
+		{"service", "telemetry", "logs", "processors", "[0]"}, {"service", "telemetry", "logs", "processors", "[0]", "batch"},
+		{"service", "telemetry", "logs", "processors", "[0]", "batch", "exporter", "otlp"},
+		{"service", "pipelines", "traces"}, // a map value: one pipeline
+		{"receivers", "otlp"}, {"receivers", "otlp", "protocols"}, {"exporters", "debug"}, {"processors", "batch"}, {"processors", "memory_limiter"}, {"extensions", "zpages"},
+	}
+	for _, pos := range positions {
+		what := strings.Join(pos, "::")
+		if what == "" {
+			what = "<top>"
+		}
+		open("unknown-key-at/" + what)
+		root := c13ServiceBase()
+		m, ok := c13At(root, pos).(map[string]any)
+		if !ok {
+			out.Linef("viol sig=C13/gen/service-probe-position-missing at=%s", what)
+			closeCase()
+			continue
+		}
+		m["zz_unknown_key"] = 1
+		_, err := c13LoadJSON(factories, root)
+		switch {
+		case err == nil:
+			out.Linef("viol sig=C13/strict/unknown-key-accepted/%s", strings.ReplaceAll(what, "[0]", "[]"))
+		case !strings.Contains(err.Error(), "zz_unknown_key"):
+			out.Linef("viol sig=C13/strict/error-does-not-name-key/%s err=%s", strings.ReplaceAll(what, "[0]", "[]"), vHex(err.Error()))
+		}
+		closeCase()
+	}
+	// misspelt top-level sections
+	for _, k := range []string{"exporter", "receiver", "processor", "extension", "services", "pipelines"} {
+		open("misspelt-section/" + k)
+		root := c13ServiceBase()
+		root[k] = map[string]any{"debug": map[string]any{}}
+		if _, err := c13LoadJSON(factories, root); err == nil {
+			out.Linef("viol sig=C13/strict/unknown-key-accepted/<top>/%s", k)
+		} else if !strings.Contains(err.Error(), k) {
+			out.Linef("viol sig=C13/strict/error-does-not-name-key/<top> key=%s err=%s", k, vHex(err.Error()))
+		}
+		closeCase()
+	}
+	// written keys of the service section are reflected in the effective configuration
+	type w struct {
+		path []string
+		v    any
+	}
+	writes := []w{
+		{[]string{"telemetry", "logs", "level"}, "debug"}, {[]string{"telemetry", "logs", "encoding"}, "json"},
+		{[]string{"telemetry", "logs", "disable_caller"}, true}, {[]string{"telemetry", "logs", "disable_stacktrace"}, true},
+		{[]string{"telemetry", "logs", "development"}, true}, {[]string{"telemetry", "logs", "output_paths"}, []any{"stdout"}},
+		{[]string{"telemetry", "logs", "sampling", "initial"}, 7}, {[]string{"telemetry", "logs", "sampling", "enabled"}, false},
+		{[]string{"telemetry", "metrics", "level"}, "detailed"}, {[]string{"telemetry", "traces", "level"}, "none"},
+		{[]string{"telemetry", "traces", "propagators"}, []any{"tracecontext", "b3"}},
+		{[]string{"telemetry", "resource"}, map[string]any{"service.name": "verif"}},
+	}
+	for _, x := range writes {
+		what := strings.Join(x.path, "::")
+		open("written/" + what)
+		root := c13ServiceBase()
+		c13SetPath(root["service"].(map[string]any), strings.Join(x.path, "::"), x.v)
+		cfg, err := c13LoadJSON(factories, root)
+		if err != nil {
+			out.Linef("viol sig=C13/load/valid-config-rejected where=service::%s err=%s", what, vHex(err.Error()))
+			closeCase()
+			continue
+		}
+		eff, err := c13EffectiveOf(cfg)
+		if err != nil {
+			out.Linef("viol sig=C13/effective/marshal-error where=service::%s", what)
+			closeCase()
+			continue
+		}
+		got := c13At(eff["service"], x.path)
+		if !strings.EqualFold(c13Norm(got), c13Norm(x.v)) {
+			out.Linef("viol sig=C13/effective/written-key-not-reflected/service::%s wrote=%v got=%v", what, x.v, got)
+		}
+		closeCase()
+	}
+	return n
 }
